@@ -71,7 +71,8 @@ def bfs_dist(G, sources):
     return dist
 
 
-def judge(its, fails, ctx, radii=(0, 1, 2, 3)):
+def judge(its, fails, ctx, radii=(0, 1, 2, 3), min_delta=None):
+    """min_delta: for an ITS built with ignore_aromaticity=True a bond counts as changed when its order changes by at least one"""
     from synkit.Graph.ITS.its_decompose import get_rc
     from synkit.Graph.Context.radius_expand import RadiusExpand
 
@@ -81,7 +82,7 @@ def judge(its, fails, ctx, radii=(0, 1, 2, 3)):
     for u, v, d in its.edges(data=True):
         og, oh = d["order"]
         hh = its.nodes[u].get("element") == "H" and its.nodes[v].get("element") == "H"
-        if og != oh or hh:
+        if (og != oh if min_delta is None else abs(og - oh) >= min_delta) or hh:
             want_e.add(frozenset((u, v)))
     want_n = {x for e in want_e for x in e}
     got_e = {frozenset(e) for e in rc.edges}
@@ -128,6 +129,15 @@ def judge(its, fails, ctx, radii=(0, 1, 2, 3)):
             fails.append(Fail("context_not_monotone", f"{ctx}: k={k}", "centre within context(1) within context(2) within the ITS"))
             return None
         prev_n, prev_e = set(K.nodes), ke
+    # the record-level interface asked for several radii of one record: every result keeps its own context
+    rec = {"ITS": its}
+    outs = [(k, RadiusExpand.context_extraction(rec, its_key="ITS", context_key="K", n_knn=k)) for k in radii[:3]]
+    for k, o in outs:
+        K = RadiusExpand.extract_k(its, k)
+        got = o.get("K") if isinstance(o, dict) else None
+        if got is None or set(got.nodes) != set(K.nodes) or {frozenset(e) for e in got.edges} != {frozenset(e) for e in K.edges}:
+            fails.append(Fail("context_record", f"{ctx}: the record returned for radius {k} holds {sorted(got.nodes) if got is not None else None} after radii {[r for r, _ in outs]} were asked", f"{sorted(K.nodes)}"))
+            return None
     if (sorted(its.nodes), sorted(map(sorted, its.edges))) != snapshot:
         fails.append(Fail("its_modified", f"{ctx}: extraction changed the ITS", "unchanged"))
         return None
@@ -180,6 +190,11 @@ def check_syn(case):
         if None in case["gl"] or None in case["hl"]:
             return Outcome(skipped="one_sided_nodes")
         its = ITSConstruction().ITSGraph(G, H)
+        its_ia = ITSConstruction().ITSGraph(G, H, ignore_aromaticity=True)
+        f0 = []
+        judge(its_ia, f0, "synthetic/ignore_aromaticity", radii=(0, 1), min_delta=1)
+        if f0:
+            return Outcome(nontrivial=True, outcome=f"n{case['n']}", fails=f0, transitions=2)
     fails, n, rc = check_its(its, "synthetic")
     return Outcome(nontrivial=bool(rc is not None and rc.number_of_nodes()), outcome="hh" if "hh" in case else f"n{case['n']}", fails=fails, transitions=n)
 
@@ -217,6 +232,15 @@ def check_corpus(case):
         if tag == "reverse":
             continue
         its = rsmi_to_its(v)
+        if tag == "identity":
+            from synkit.IO.chem_converter import rsmi_to_graph
+            from synkit.Graph.ITS.its_construction import ITSConstruction
+
+            G0, H0 = rsmi_to_graph(v)
+            judge(ITSConstruction().ITSGraph(G0, H0, ignore_aromaticity=True), fails, "identity/ignore_aromaticity", radii=(0, 1), min_delta=1)
+            n += 2
+            if fails:
+                break
         f, k, rc = check_its(its, tag)
         n += k
         fails += f
